@@ -163,6 +163,7 @@ structure AttrPart (tb : Bool) (ab : Bytes) (fin : List Attr) where
   h3 : seen.contains 3 = false
   h14 : seen.contains 14 = false
   h15 : seen.contains 15 = false
+  hplain : ∀ r ∈ raws, r.code ≠ 14 ∧ r.code ≠ 15
   hfin : (if tb then reconcileAs4 pre else pre) = fin
 
 /-- the 4-octet-AS instance -/
@@ -198,6 +199,11 @@ def attrPart4 (attrs : List Attr) (hok : AttrsOk attrs)
     simp only [List.contains_iff_mem, List.mem_reverse] at h
     obtain ⟨x, hx, hxc⟩ := List.mem_map.mp h
     exact (hok.1 x hx).2.2.2.1 hxc
+  hplain := by
+    intro r hr
+    obtain ⟨a, ha, rfl⟩ := List.mem_map.mp hr
+    have := (hok.1 a ha).2
+    exact ⟨this.2.1, this.2.2.1⟩
   hfin := by simp
 
 theorem AttrPart.tlvs_eq {tb : Bool} {ab : Bytes} {fin : List Attr} (P : AttrPart tb ab fin)
@@ -272,5 +278,35 @@ theorem parseUpdate_reach_legacy (od : OpaqueDec) (peer : Codec) (ab : Bytes) (f
     | nil => exact absurd rfl hne
     | cons _ _ => rfl
   simp [hmapne, P.hfin]
+
+/-! ### length consistency as the spec reads it -/
+
+theorem frameLengths_update (body : Bytes) (sec : Sections) (raws : List RawAttr)
+    (h1 : updateSections body = some sec) (h2 : tlvs sec.attrs = (raws, true))
+    (h3 : raws.all mpValueOk = true) : frameLengths (frame 2 body) = none := by
+  unfold frameLengths
+  simp only [frame_type, beNat_single, frame_body, if_true, h1, h2, h3]
+  simp
+
+theorem mpValueOk_plain (r : RawAttr) (h : r.code ≠ 14 ∧ r.code ≠ 15) : mpValueOk r = true := by
+  simp [mpValueOk, h.1, h.2]
+
+theorem reach_legacy_sections (ab a nb : Bytes) (ha : a.length = 4) (hal : ab.length + 7 < 65536) :
+    updateSections ([0, 0] ++ be16 (ab.length + 7) ++ (ab ++ encRaw (nhRaw a)) ++ nb)
+      = some ⟨[], ab ++ encRaw (nhRaw a), nb⟩ := by
+  have hnhl : (encRaw (nhRaw a)).length = 7 := by simp [encRaw, nhRaw, lenField, hasExt, ha]
+  have := updateSections_enc [] (ab ++ encRaw (nhRaw a)) nb (by simp) (by simp [hnhl]; omega)
+  simpa [be16_zero, hnhl, List.append_assoc] using this
+
+theorem reach_legacy_struct {tb : Bool} (ab : Bytes) (fin : List Attr) (P : AttrPart tb ab fin) (a nb : Bytes)
+    (ha : a.length = 4) (hal : ab.length + 7 < 65536) :
+    frameLengths (frame 2 ([0, 0] ++ be16 (ab.length + 7) ++ (ab ++ encRaw (nhRaw a)) ++ nb)) = none := by
+  apply frameLengths_update _ _ (P.raws ++ [nhRaw a]) (reach_legacy_sections ab a nb ha hal)
+  · have hnhok : RawOk (nhRaw a) := by simp [RawOk, nhRaw, ha]
+    have := P.tlvs_eq [nhRaw a] (by intro r hr; simp at hr; rw [hr]; exact hnhok)
+    simpa using this
+  · simp only [List.all_append, Bool.and_eq_true, List.all_eq_true]
+    refine ⟨fun r hr => mpValueOk_plain r (P.hplain r hr), ?_⟩
+    intro r hr; simp at hr; rw [hr]; simp [mpValueOk, nhRaw]
 
 end Rbgp.Enc
